@@ -11,6 +11,10 @@ from __future__ import annotations
 
 import asyncio
 import contextvars
+import os
+import signal
+import threading
+import time as _time
 from dataclasses import dataclass, field
 from typing import Any, Callable, Coroutine
 
@@ -31,8 +35,55 @@ class SimStepCap(SimStop):
     """Step cap of the run exceeded."""
 
 
+class SimSpin(SimStop):
+    """One loop callback ran for SPIN_WALL_S seconds of wall time without returning to the loop."""
+
+
 class HarnessError(Exception):
     """The simulator itself was used in a way that breaks determinism."""
+
+
+# --------------------------------------------------------------------------- spin watchdog
+# Virtual time, step caps and deadlock detection all need the loop to get control back.  Code that spins inside a single
+# callback (a `while True` that never awaits) defeats them; only wall time can tell.  A daemon thread watches a heartbeat
+# that every loop iteration bumps; if a running loop shows no heartbeat for SPIN_WALL_S it raises SimSpin in the main
+# thread.  It decides nothing about runs that make progress: such runs never see it.
+SPIN_WALL_S = float(os.environ.get("VERIF_SPIN_S") or 30.0)
+_wd: dict[str, Any] = {"pid": None, "beat": 0, "armed": 0}
+
+
+def _spin_handler(signum: int, frame: Any) -> None:
+    if _wd["armed"] > 0:
+        _wd["fired"] = _wd.get("fired", 0) + 1
+        raise SimSpin(f"a loop callback did not return within {SPIN_WALL_S:.0f} s of wall time")
+
+
+def _watchdog_thread(main_ident: int) -> None:
+    last, since = -1, _time.monotonic()
+    while True:
+        _time.sleep(min(2.0, SPIN_WALL_S / 4))
+        if _wd["armed"] <= 0 or _wd["beat"] != last:
+            last, since = _wd["beat"], _time.monotonic()
+            continue
+        if _time.monotonic() - since > SPIN_WALL_S:
+            since = _time.monotonic()
+            try:
+                signal.pthread_kill(main_ident, signal.SIGUSR2)
+            except Exception:  # noqa: BLE001
+                return
+
+
+def spin_count() -> int:
+    return int(_wd.get("fired", 0))
+
+
+def _ensure_watchdog() -> None:
+    if _wd["pid"] == os.getpid() or threading.current_thread() is not threading.main_thread():
+        return
+    _wd["pid"] = os.getpid()
+    _wd["armed"] = 0
+    signal.signal(signal.SIGUSR2, _spin_handler)
+    threading.Thread(target=_watchdog_thread, args=(threading.main_thread().ident,), daemon=True, name="sim-spin-watchdog").start()
 
 
 class _Selector:
@@ -44,6 +95,7 @@ class _Selector:
         if timeout is None:
             raise SimDeadlock("no runnable task and no timer")
         if timeout > 0:
+            loop.idle_jumps += 1
             if loop.vcap is not None and loop._vt + timeout > loop.vcap:
                 loop._vt = loop.vcap
                 raise SimTimeCap(f"virtual time cap {loop.vcap}s exceeded")
@@ -72,6 +124,13 @@ class SimLoop(asyncio.BaseEventLoop):
         self.set_exception_handler(self._on_unhandled)
         # strong references to tasks created by the simulator's helpers
         self.keep: list[Any] = []
+        # fault "slow node": with probability stall_p an iteration costs stall_dt() seconds of virtual time (a callback
+        # that kept the CPU), so timers become due late and several of them in one iteration; off unless a check sets it
+        self.stall_p = 0.0
+        self.stall_rng: Any = None
+        self.stall_dt: Callable[[], float] = lambda: 0.0
+        self.stalls = 0
+        self.idle_jumps = 0
 
     # -- clock / selector ---------------------------------------------------------------
     def time(self) -> float:
@@ -85,9 +144,22 @@ class SimLoop(asyncio.BaseEventLoop):
 
     def _run_once(self) -> None:
         self.steps += 1
+        _wd["beat"] += 1
         if self.stepcap is not None and self.steps > self.stepcap:
             raise SimStepCap(f"step cap {self.stepcap} exceeded")
+        if self.stall_p and self.stall_rng is not None and self.stall_rng.random() < self.stall_p:
+            self._vt += self.stall_dt()
+            self.stalls += 1
         super()._run_once()  # type: ignore[misc]
+
+    def run_forever(self) -> None:
+        _ensure_watchdog()
+        _wd["armed"] += 1
+        _wd["beat"] += 1
+        try:
+            super().run_forever()
+        finally:
+            _wd["armed"] -= 1
 
     # -- threads are not allowed to exist -------------------------------------------
     def run_in_executor(self, executor: Any, func: Callable[..., Any], *args: Any) -> Any:
@@ -138,7 +210,7 @@ class Outcome:
 
     @property
     def hung(self) -> bool:
-        return self.kind in ("deadlock", "timecap", "stepcap")
+        return self.kind in ("deadlock", "timecap", "stepcap", "spin")
 
 
 def _await_chain(coro: Any) -> list[str]:
@@ -226,6 +298,7 @@ def sim_run(
     loop.stepcap = stepcap
     asyncio.set_event_loop(loop)
     out: Outcome
+    spins0 = spin_count()
     try:
         try:
             task = loop.create_task(main(loop))
@@ -237,8 +310,13 @@ def sim_run(
             out = Outcome("timecap", exc=e, pending=describe_pending(loop))
         except SimStepCap as e:
             out = Outcome("stepcap", exc=e, pending=describe_pending(loop))
+        except SimSpin as e:
+            out = Outcome("spin", exc=e, pending=describe_pending(loop))
         except BaseException as e:  # noqa: BLE001
             out = Outcome("exc", exc=e)
+        if spin_count() > spins0 and out.kind != "spin":
+            # the watchdog interrupted a task other than the main one (asyncio stores the exception in that task)
+            out = Outcome("spin", exc=SimSpin("a loop callback did not return (interrupted by the watchdog)"), pending=describe_pending(loop))
         out.vtime = loop.time()
         out.steps = loop.steps
         if out.hung and on_stuck is not None:
